@@ -1,11 +1,15 @@
 package main
 
 import (
+	"fmt"
+
+	ethchaindrv "github.com/Oneledger/protocol/chains/ethereum"
+	"github.com/Oneledger/protocol/chains/ethereum/contract"
 	"github.com/Oneledger/protocol/consensus"
 	"github.com/Oneledger/protocol/data/balance"
 	"github.com/Oneledger/protocol/data/delegation"
-	netdata "github.com/Oneledger/protocol/data/network_delegation"
 	"github.com/Oneledger/protocol/data/keys"
+	netdata "github.com/Oneledger/protocol/data/network_delegation"
 )
 
 // unstaked amounts maturing at several heights, loaded by delegation.LoadState at genesis
@@ -28,6 +32,22 @@ func customizePending(w *World) func(*consensus.AppState) {
 		for i, h := range []int64{3, 7, 12, 20} {
 			c := OLT.NewCoinFromInt(int64(5 + i))
 			st.NetDelegators.PendingList = append(st.NetDelegators.PendingList, pendingEntry(w.Users[i%len(w.Users)].Addr, h, &c))
+		}
+	}
+}
+
+// Ethereum chain driver configured, every genesis validator registered as an Ethereum witness
+// (so that the node identity of a replica decides whether it is a witness), cap 1000000 wei
+func customizeEth(w *World) func(*consensus.AppState) {
+	return func(st *consensus.AppState) {
+		st.Governance.ETHCDOption = ethchaindrv.ChainDriverOption{
+			ContractABI: contract.LockRedeemABI, ContractAddress: c15Contract,
+			ERCContractABI: contract.LockRedeemERCABI, ERCContractAddress: c15Contract,
+			TotalSupply: "1000000", TotalSupplyAddr: c15SupplyAddr, BlockConfirmation: 1,
+		}
+		for i, v := range w.Vals {
+			st.Witness = append(st.Witness, consensus.Stake{ValidatorAddress: v.Val.Addr, StakeAddress: v.Val.Addr, Pubkey: v.Val.Pub, ECDSAPubKey: v.Val.Pub,
+				Name: fmt.Sprintf("w%d", i), Amount: *balance.NewAmount(1)})
 		}
 	}
 }
